@@ -166,6 +166,17 @@ def set_objective(
         reverse_value, direction=model.solver.objective.direction, sloppy=True
     )
 
+    # Register the undo before modifying anything, so that an objective that
+    # fails part-way (e.g. a reaction that is not in the model) is still reset.
+    context = get_context(model)
+    if context:
+
+        def reset():
+            model.solver.objective = reverse_value
+            model.solver.objective.direction = reverse_value.direction
+
+        context(reset)
+
     if isinstance(value, dict):
         if not model.objective.is_Linear:
             raise ValueError(
@@ -199,14 +210,6 @@ def set_objective(
     else:
         raise TypeError(f"{value} is not a valid objective for {model.solver}.")
 
-    context = get_context(model)
-    if context:
-
-        def reset():
-            model.solver.objective = reverse_value
-            model.solver.objective.direction = reverse_value.direction
-
-        context(reset)
 
 
 def interface_to_str(interface: Union[str, ModuleType]) -> str:
